@@ -2433,6 +2433,11 @@ impl Router {
         self.consume().is_some()
     }
 
+    /// Number of entries in the ready queue (live or stale).
+    pub fn verif_ready_len(&self) -> usize {
+        self.scheduler.readyqueue.len()
+    }
+
     /// Read-only dump of scheduling state (diagnostics for the verification harness).
     pub fn verif_snapshot(&self) -> String {
         let mut s = format!("RQ{:?}", self.scheduler.readyqueue);
